@@ -85,6 +85,21 @@ def judge(ctx, prop, mode, trace, wls):
     ctx.traces_ok += n_ev - bad
 
 
+def replay_model(ctx, trace, stride):
+    """Implementation-layer binding: Lexer.tla is started on the description of each recorded file with the recorded cut /
+    fault position and must emit as many tokens and end the same way as the real lexer (every stride-th deterministic read)."""
+    import re
+    out, rc, wall = ctx.tlc("LexerReplay.tla", "LexerReplay.cfg", workers=8, env={"TRACE": trace, "LEXSTRIDE": str(stride)}, timeout=2400)
+    if "Model checking completed" not in out:
+        raise MachineryError("lexer model replay failed:\n" + out[-3000:])
+    drifts = re.findall(r'<<"DRIFT", (\d+), (\d+), "(\w+)">>', out)
+    m = re.search(r"Finished computing initial states: (\d+) distinct", out)
+    ctx.extra["model_replays"] = ctx.extra.get("model_replays", 0) + (int(m.group(1)) if m else 0)
+    ctx.extra["impl_layer_drift"] = ctx.extra.get("impl_layer_drift", 0) + len(drifts)
+    for line, n, end in drifts[:3]:
+        ctx.notes.append("MODEL-DRIFT: Lexer.tla predicts %s tokens ending in %s for the read at trace line %s; the real lexer did otherwise" % (n, end, line))
+
+
 def model(ctx, prop):
     cfgs = {"C09": ["Lexer_cut"], "C15": ["Lexer_fault"], "C07": ["Lexer_flip"]}[prop]
     for c in cfgs:
@@ -102,6 +117,8 @@ def run(ctx, prop):
         wls = os.path.join(ctx.tmp, mode + ".wl.ndjson")
         ctx.harness(["rrun", "-mode", mode, "-seed", ctx.seed, "-n", n, "-size", size, "-out", trace, "-wl", wls], timeout=7000)
         judge(ctx, prop, mode, trace, wls)
+        if mode in ("cut", "fault"):
+            replay_model(ctx, trace, 1)
         os.remove(trace)
     ctx.exhaustive = True
     ctx.assumptions += [
